@@ -773,7 +773,7 @@ fn main() {
     rep.count("probe_cases");
     rep.case("probe delete-all-then-insert", ok);
 
-    let n_b = args.n(60, 1500);
+    let n_b = args.n(60, 600);
     for i in 0..n_b {
         id += 1;
         set_schema((i % 2) as usize);
@@ -788,7 +788,7 @@ fn main() {
             rep.sample(serde_json::json!({"mode": "index API + model", "initial_rows": n_rows, "key_spread": spread, "ops": args.n(50, 150)}));
         }
     }
-    let n_a = args.n(60, 1500);
+    let n_a = args.n(60, 600);
     for i in 0..n_a {
         id += 1;
         set_schema((i % 2) as usize);
